@@ -780,3 +780,339 @@ impl Scenario for IoSim {
         v
     }
 }
+
+// ------------------------------------------------------------------------------------------
+// realio: the TCP / Unix stream wrappers and the Braid arms over real kernel sockets
+// ------------------------------------------------------------------------------------------
+
+/// C18, second part. `stream::tcp::TcpStream`, `stream::unix::UnixStream` and the TCP / Unix arms
+/// of `Braid` wrap kernel sockets, for which there is no seam; the adapters themselves are pure
+/// pass-through code, so what is controlled here is everything on the caller's side - the
+/// write / vectored-write / flush / shutdown script, the read-buffer capacities and pre-fill -
+/// while loopback and Unix-domain sockets carry the bytes (fault-free: no kernel-level fault
+/// can be injected). Writer and reader run on one current-thread runtime.
+#[derive(Clone, Copy, Debug, Serialize, Deserialize, PartialEq, Eq)]
+pub enum RStack {
+    /// hyperdriver TcpStream::connect <-> Accept for TcpListener
+    Tcp,
+    /// hyperdriver UnixStream::connect <-> Accept for UnixListener
+    Unix,
+    /// UnixStream::pair()
+    UnixPair,
+    /// client::conn::Stream<Braid(TCP)> <-> server::conn::Stream<Braid(TCP)>
+    BraidTcp,
+    /// the same over a Unix socket
+    BraidUnix,
+    /// BraidTcp with TLS on both sides
+    BraidTcpTls,
+}
+
+#[derive(Clone, Debug, Serialize, Deserialize)]
+pub struct RealIoCase {
+    pub seed: u64,
+    pub stack: RStack,
+    pub writes: Vec<WOp>,
+    /// end the forward direction with shutdown() (true) or by dropping the endpoint (false; only without reverse traffic)
+    pub shutdown: bool,
+    pub read_caps: Vec<usize>,
+    pub prefill: usize,
+    pub reverse_bytes: usize,
+}
+
+pub struct RealIoSim;
+
+static RSOCK_SEQ: std::sync::atomic::AtomicU64 = std::sync::atomic::AtomicU64::new(0);
+
+fn rsock_path() -> std::path::PathBuf {
+    let base = std::env::var("VERIF_SOCK_DIR").map(std::path::PathBuf::from).unwrap_or_else(|_| std::env::temp_dir());
+    let d = base.join(format!("hdsim-io-{}", std::process::id()));
+    let _ = std::fs::create_dir_all(&d);
+    d.join(format!("s{}", RSOCK_SEQ.fetch_add(1, std::sync::atomic::Ordering::Relaxed)))
+}
+
+async fn real_pair(stack: RStack) -> io::Result<(Box<dyn Endpoint>, Box<dyn Endpoint>)> {
+    use hyperdriver::server::conn::AcceptExt;
+    use hyperdriver::stream::Braid;
+    let tcp = || async {
+        let l = tokio::net::TcpListener::bind("127.0.0.1:0").await?;
+        let addr = l.local_addr()?;
+        let (c, s) = tokio::join!(hyperdriver::stream::tcp::TcpStream::connect(addr), l.accept());
+        Ok::<_, io::Error>((c?, s?))
+    };
+    let unix = || async {
+        let p = rsock_path();
+        let l = tokio::net::UnixListener::bind(&p)?;
+        let (c, s) = tokio::join!(hyperdriver::stream::unix::UnixStream::connect(p.clone()), l.accept());
+        let _ = std::fs::remove_file(&p);
+        Ok::<_, io::Error>((c?, s?))
+    };
+    Ok(match stack {
+        RStack::Tcp => {
+            let (c, s) = tcp().await?;
+            (Box::new(TokioEnd(c)), Box::new(TokioEnd(s)))
+        }
+        RStack::Unix => {
+            let (c, s) = unix().await?;
+            (Box::new(TokioEnd(c)), Box::new(TokioEnd(s)))
+        }
+        RStack::UnixPair => {
+            let (a, b) = hyperdriver::stream::unix::UnixStream::pair()?;
+            (Box::new(TokioEnd(a)), Box::new(TokioEnd(b)))
+        }
+        RStack::BraidTcp => {
+            let (c, s) = tcp().await?;
+            let cs: hyperdriver::client::conn::Stream = hyperdriver::client::conn::Stream::new(Braid::from(c));
+            let ss: hyperdriver::server::conn::Stream = hyperdriver::server::conn::Stream::new(Braid::from(s));
+            (Box::new(TokioEnd(cs)), Box::new(TokioEnd(ss)))
+        }
+        RStack::BraidUnix => {
+            let (c, s) = unix().await?;
+            let cs: hyperdriver::client::conn::Stream = hyperdriver::client::conn::Stream::new(Braid::from(c));
+            let ss: hyperdriver::server::conn::Stream = hyperdriver::server::conn::Stream::new(Braid::from(s));
+            (Box::new(TokioEnd(cs)), Box::new(TokioEnd(ss)))
+        }
+        RStack::BraidTcpTls => {
+            let (c, s) = tcp().await?;
+            let mut client = hyperdriver::client::conn::Stream::new(Braid::from(c)).tls("sim.test", tlsfix::client_config(&[]));
+            let acceptor = tokio_rustls::TlsAcceptor::from(tlsfix::server_config(tlsfix::CertKind::Good, &[]));
+            let mut server: hyperdriver::server::conn::Stream<Braid> = hyperdriver::server::conn::tls::TlsStream::new(acceptor.accept(Braid::from(s))).into();
+            {
+                use hyperdriver::stream::tls::TlsHandshakeStream;
+                let (a, b) = tokio::join!(client.finish_handshake(), server.finish_handshake());
+                a?;
+                b?;
+            }
+            (Box::new(TokioEnd(client)), Box::new(TokioEnd(server)))
+        }
+    })
+}
+
+impl Scenario for RealIoSim {
+    type Case = RealIoCase;
+
+    fn engine(&self) -> &'static str {
+        "realio"
+    }
+
+    fn info(&self) -> ScenarioInfo {
+        ScenarioInfo {
+            rule: "writer script (write / write_vectored / flush, sizes 0..20000, ended by shutdown or by dropping the endpoint) and reader script (buffer capacities 0..70000, pre-filled buffers), optionally with concurrent reverse traffic, over hyperdriver's TcpStream and UnixStream (connect / accept / pair) bare, inside Braid inside client/server Stream, and with TLS on top - carried by real loopback and Unix-domain sockets (fault-free; the kernel has no seam). Bytes compared with a reference FIFO; end-of-stream must arrive after the last byte; no spurious errors; read-buffer contract. distinct = (stack, op kinds and size classes, read-cap classes).".into(),
+            real: vec![
+                "stream::tcp::TcpStream (connect, Accept for TcpListener, AsyncRead/AsyncWrite incl. vectored, shutdown), stream::unix::UnixStream (connect, pair, Accept for UnixListener)",
+                "stream::core::Braid (TCP and Unix arms), client::conn::Stream / server::conn::Stream over them, TlsBraid (both arms)",
+                "Linux loopback TCP and Unix-domain sockets (real kernel objects), tokio-rustls / rustls",
+            ],
+            stub: vec!["nothing is stubbed; chunking on the wire is whatever the kernel does (not controlled), the callers' scripts are seeded"],
+            assumptions: vec!["no fault is injected in this part (kernel sockets have no seam); time is real and only bounds a hang (10 s)"],
+        }
+    }
+
+    fn num_cases(&self, tier: Tier) -> (u64, u64) {
+        match tier {
+            Tier::Quick => (0, 3_000),
+            Tier::Thorough => (0, 200_000),
+        }
+    }
+
+    fn case(&self, _index: u64, seed: u64, _tier: Tier) -> RealIoCase {
+        let mut r = Rng::keyed(seed, "realio/case");
+        let base = draw_case(&mut r, seed);
+        let stack = *r.pick(&[RStack::Tcp, RStack::Unix, RStack::UnixPair, RStack::BraidTcp, RStack::BraidUnix, RStack::BraidTcpTls]);
+        let reverse_bytes = if r.chance(1, 3) { *r.pick(&[1usize, 100, 4000]) } else { 0 };
+        RealIoCase {
+            seed,
+            stack,
+            writes: base.writes,
+            shutdown: reverse_bytes > 0 || r.bool(),
+            read_caps: base.read_caps,
+            prefill: base.prefill,
+            reverse_bytes,
+        }
+    }
+
+    fn execute(&self, case: &RealIoCase) -> Outcome {
+        simrt::install_panic_hook();
+        let _ = simrt::take_panics();
+        let mut out = Outcome::default();
+        let rt = tokio::runtime::Builder::new_current_thread().enable_all().build().expect("runtime");
+        let fwd = std::cell::RefCell::new(Side::default());
+        let back = std::cell::RefCell::new(Side::default());
+        let started = std::time::Instant::now();
+        let vstack = match case.stack {
+            RStack::Tcp | RStack::Unix | RStack::UnixPair => Stack::BraidPlain,
+            _ => Stack::BraidPlain,
+        };
+        let _ = vstack;
+        let viol = |out: &mut Outcome, rule: &str, detail: String| {
+            out.violations.push(Violation::new("C18", rule, json!({"stack": format!("{:?}", case.stack)}), detail));
+        };
+        let res = std::panic::catch_unwind(std::panic::AssertUnwindSafe(|| {
+            rt.block_on(async {
+                let (mut wa, mut rb) = match real_pair(case.stack).await {
+                    Ok(x) => x,
+                    Err(e) => return Err(format!("harness: could not set up {:?}: {}", case.stack, e)),
+                };
+                let fwd_limit: usize = case
+                    .writes
+                    .iter()
+                    .map(|w| match w {
+                        WOp::Write(n) => *n,
+                        WOp::WriteVectored(v) => v.iter().sum(),
+                        _ => 0,
+                    })
+                    .sum::<usize>()
+                    + 65536;
+                let reverse: Vec<WOp> = if case.reverse_bytes > 0 { vec![WOp::Write(case.reverse_bytes)] } else { vec![] };
+                // A TLS endpoint is always shut down properly: dropping it while the peer's session
+                // tickets sit unread in the socket makes the kernel send a reset instead of a FIN,
+                // which is TCP's behaviour and not the adapter's.
+                let shutdown = case.shutdown || case.stack == RStack::BraidTcpTls;
+                let side_a = async {
+                    run_writer(wa.as_mut(), &case.writes, shutdown, 1, &fwd).await;
+                    if case.reverse_bytes > 0 && fwd.borrow().write_err.is_none() {
+                        run_reader(wa.as_mut(), &case.read_caps, 0, &back, None, case.reverse_bytes + 65536).await;
+                    }
+                    if !shutdown {
+                        drop(wa); // closing the socket ends the stream
+                    }
+                };
+                let side_b = async {
+                    if case.reverse_bytes > 0 {
+                        run_writer(rb.as_mut(), &reverse, true, 2, &back).await;
+                    }
+                    run_reader(rb.as_mut(), &case.read_caps, case.prefill, &fwd, None, fwd_limit).await;
+                };
+                let both = async {
+                    tokio::join!(side_a, side_b);
+                };
+                Ok(tokio::time::timeout(std::time::Duration::from_secs(10), both).await.is_err())
+            })
+        }));
+        drop(rt);
+        for p in simrt::take_panics() {
+            if p.in_harness() {
+                out.harness_error = Some(format!("harness panic {} at {}", p.message, p.location()));
+            } else {
+                viol(&mut out, "panic", format!("panic: {} at {}", p.message, p.location()));
+            }
+        }
+        let hang = match res {
+            Ok(Ok(h)) => h,
+            Ok(Err(e)) => {
+                out.harness_error = Some(e);
+                return out;
+            }
+            Err(_) => return out,
+        };
+        let f = fwd.borrow();
+        let bk = back.borrow();
+        let mut log = Digest::default();
+        let mut sig = Digest::default();
+        log.push(f.sent.len() as u64);
+        log.push(f.received.len() as u64);
+        log.push(f.eof_seen.min(1) as u64);
+        log.push(bk.received.len() as u64);
+        log.push(hang as u64);
+        sig.push(case.stack as u64);
+        let cls = |n: usize| -> u64 {
+            match n {
+                0 => 0,
+                1 => 1,
+                2..=63 => 2,
+                64..=4095 => 3,
+                _ => 4,
+            }
+        };
+        for w in &case.writes {
+            match w {
+                WOp::Write(n) => sig.push(10 + cls(*n)),
+                WOp::WriteVectored(v) => {
+                    sig.push(20);
+                    for n in v {
+                        sig.push(cls(*n));
+                    }
+                }
+                WOp::Flush => sig.push(30),
+            }
+        }
+        for c in &case.read_caps {
+            sig.push(40 + cls(*c));
+        }
+        sig.push(case.prefill as u64);
+        sig.push(case.shutdown as u64);
+        sig.push(cls(case.reverse_bytes));
+        out.abstract_sig = sig.0;
+        out.log_digest = log.0;
+        out.sim_ms = started.elapsed().as_millis() as u64;
+        out.nontrivial = case.writes.len() >= 2;
+        out.count(&format!("probe.stack_{:?}", case.stack));
+        if hang {
+            viol(&mut out, "transfer_hangs", format!("transfer did not finish within 10 s: sent {} received {} eof {}", f.sent.len(), f.received.len(), f.eof_seen));
+            return out;
+        }
+        for (name, side, salt) in [("forward", &*f, 1u64), ("reverse", &*bk, 2u64)] {
+            if let Some(e) = &side.oracle_err {
+                viol(&mut out, "read_buffer_contract", format!("{}: {}", name, e));
+            }
+            if let Some(e) = &side.over_report {
+                viol(&mut out, "over_report", format!("{}: {}", name, e));
+            }
+            if let Some(e) = &side.write_err {
+                viol(&mut out, "spurious_write_error", format!("{}: writer got error {} on a healthy socket", name, e));
+                continue;
+            }
+            if let Some(e) = &side.read_err {
+                viol(&mut out, "spurious_read_error", format!("{}: reader got error {} on a healthy socket", name, e));
+                continue;
+            }
+            let expected: Vec<u8> = (0..side.sent.len() as u64).map(|i| pattern(i, salt)).collect();
+            if side.sent != expected {
+                out.harness_error = Some("writer bookkeeping inconsistent".into());
+            }
+            if side.received != expected {
+                let first_bad = side.received.iter().zip(expected.iter()).position(|(a, b)| a != b).unwrap_or(expected.len().min(side.received.len()));
+                let rule = if side.received.len() < expected.len() && side.received[..] == expected[..side.received.len()] { "bytes_lost" } else { "bytes_differ" };
+                viol(&mut out, rule, format!("{}: wrote {} bytes, reader got {}; first difference at offset {}", name, expected.len(), side.received.len(), first_bad));
+            } else if (name == "forward" || case.reverse_bytes > 0) && side.eof_seen == 0 {
+                viol(&mut out, "eof_not_propagated", format!("{}: all {} bytes arrived but end-of-stream was never reported", name, expected.len()));
+            }
+        }
+        out
+    }
+
+    fn shrink(&self, case: &RealIoCase) -> Vec<RealIoCase> {
+        let mut v = vec![];
+        for i in 0..case.writes.len() {
+            let mut c = case.clone();
+            c.writes.remove(i);
+            v.push(c);
+        }
+        for i in 0..case.writes.len() {
+            if let WOp::Write(n) = case.writes[i] {
+                if n > 1 {
+                    let mut c = case.clone();
+                    c.writes[i] = WOp::Write(n / 2);
+                    v.push(c);
+                }
+            }
+        }
+        if case.read_caps.len() > 1 {
+            for i in 0..case.read_caps.len() {
+                let mut c = case.clone();
+                c.read_caps.remove(i);
+                v.push(c);
+            }
+        }
+        if case.prefill > 0 {
+            let mut c = case.clone();
+            c.prefill = 0;
+            v.push(c);
+        }
+        if case.reverse_bytes > 0 {
+            let mut c = case.clone();
+            c.reverse_bytes = 0;
+            v.push(c);
+        }
+        v
+    }
+}
